@@ -13,6 +13,7 @@ every trie state, collapse level and hash function:
                            of t0 is still in storage, every key only the rolled-back commit created is gone, the
                            bookkeeping lists are empty (no GC pass between commit and rollback; collision-freeness
                            relative to a subtree-closed set S ∋ t0, t1)
+  C13_rollbackTrie         the same for RollbackTrie with the checkpoint given as a (hash, weight) reference
   C13_checkpoint_answers   and the rolled-back trie then answers every block of the checkpoint: owner key, honest proof
                            bytes, proof verifies to (hash t0, owner's value)
   rollback_clears_queues   both entry points forget the rolled-back commit's created / pending-deletion lists
@@ -100,6 +101,23 @@ theorem C13_checkpoint_answers (H : Bytes → Bytes) (hlen : ∀ x, (H x).length
   rw [owner_eq_ownerSpec t0 b hb1 hb] at ho
   refine ⟨k, v, ho, ?_, hv⟩
   rw [hr]; exact hp'
+
+/-- the other entry point, `RollbackTrie(NewHashNode(hash t0, weight t0))`: every node of the checkpoint stays in
+    storage; either the committed root already has the checkpoint's hash and nothing is touched (the early return of
+    the Go code), or the checkpoint reference is installed, exactly the keys the commit created are gone and all
+    bookkeeping lists — including the pending-deletion queue, fix 6d30809 — are empty -/
+theorem C13_rollbackTrie (H : Bytes → Bytes) (hlen : ∀ x, (H x).length = 32) {S : PT → Prop} (hcl : SubClosed S)
+    (hinj : HashInj H S) (lvl : Int) (t : WT) (t0 t1 : PT) (hdb : t.hasDb = true)
+    (hcp : StoredAll H t.store t0) (hw0 : 0 < t0.weight)
+    (h1 : RepS H t.store t.root t1) (hp : Proper t.root) (hd : t.root.dirty = true) (hS0 : S t0) (hS1 : S t1) :
+    let c := commit H t lvl
+    let c' : WT := { c.1 with store := c.1.store.apply c.2 }
+    let r := (rollbackTrie H c' (.hashRef (PT.hash H t0) t0.weight)).1
+    StoredAll H r.store t0 ∧
+      ((c'.root.hashField H = PT.hash H t0 ∧ r = c') ∨
+       (r.root = .hashRef (PT.hash H t0) t0.weight ∧ (∀ k ∈ c.1.created, r.store.get k = none) ∧
+         r.created = [] ∧ r.tempDeleted = [] ∧ r.pending = [] ∧ r.deleted = [])) :=
+  rollbackTrie_restores H hlen hcl hinj lvl t t0 t1 hdb hcp hw0 h1 hp hd hS0 hS1
 
 set_option maxRecDepth 1000000 in
 /-- the scenario is realisable (toy hash, `decide`): checkpoint {A ↦ x, D ↦ y} committed; SaveRoot; a same-value re-write
